@@ -89,6 +89,31 @@ pub fn run_all(args: &Args) {
       }
       files.push(name);
     }
+    // the same file under other spellings of its path (a `..` detour, a symbolic link): every argument is a file of
+    // its own for the report — its diagnostics are printed under the path it was given by, and counted
+    if case_no % 5 == 2 && !files.is_empty() {
+      let f = files[crng.below(files.len())].clone();
+      let body = std::fs::read_to_string(format!("{}/{}", dir, f)).unwrap_or_default();
+      let _ = std::fs::create_dir_all(format!("{}/sub", dir));
+      let link = format!("ln_{}", f);
+      let _ = std::os::unix::fs::symlink(&f, format!("{}/{}", dir, link));
+      for alias in [format!("sub/../{}", f), link] {
+        let spec = deno_ast::ModuleSpecifier::from_file_path(format!("{}/{}", dir, alias.replace("sub/../", ""))).unwrap();
+        let r = linter.lint_file(deno_lint::linter::LintFileOptions {
+          specifier: spec,
+          source_code: body.clone(),
+          media_type: deno_ast::MediaType::TypeScript,
+          config: deno_lint::linter::LintConfig { default_jsx_factory: Some("React.createElement".into()), default_jsx_fragment_factory: Some("React.Fragment".into()) },
+          external_linter: None,
+        });
+        if let Ok((ps, ds)) = r {
+          expected += ds.len() + ps.diagnostics().len();
+          per_file.push(json!({"file": alias, "lint": ds.len(), "parse": ps.diagnostics().len(), "alias_of": f}));
+        }
+        files.push(alias);
+      }
+      out.count("file=path-aliases");
+    }
     if with_fatal {
       let name = format!("q{}.ts", n);
       std::fs::write(format!("{}/{}", dir, name), FATAL[crng.below(FATAL.len())]).unwrap();
